@@ -157,7 +157,7 @@ def gen_factory(tier):
         n = 0
         for meta, prog in programs(tier):
             ptext = ctl.btext(prog)
-            for route in ("cpp", "capi"):
+            for route in ("cpp", "capi", "capi2"):
                 ops = [op_ctx(), op_run(DECL7), op_run(FDECL),
                        op_run(ptext, route=route), op_out(), op_run(ptext, route=route), op_out(),
                        op_run('break; continue; print "after-break";', route=route), op_out(),
